@@ -32,6 +32,7 @@ THEMES = {
     "fd": (5, 3, 4),
     "path": (4, 2, 3),
     "mode": (4, 3, 4),
+    "app": (5, 4, 5),
     "pipe": (5, 4, 5),
     "sig": (3, 4, 5),
 }
